@@ -101,6 +101,10 @@ def hermitian_configs(tier, hermitian=True):
     add(carrier="C", sizes=[2, 2], spectrum="sym", classes=[0, 0, 1, 2], terms=[[1]], max_order=3, fd=[0, 1])
     add(carrier="C", sizes=[1, 1, 2], spectrum="sym", terms=[[1]], max_order=2, fd=[2])
     add(carrier="C", sizes=[1, 2], spectrum=RAT_SPECTRA[3], terms=[[1, 0], [0, 1], [1, 1]], max_order=3, fd={"1": [[0, 1], [1, 0]]})
+    # the Hamiltonian as one sympy matrix in the perturbative symbols (the library's Taylor expansion), mixed monomials and higher powers
+    add(carrier="C", sizes=[1, 2], spectrum=RAT_SPECTRA[3], terms=[[1, 0], [0, 1], [1, 1]], max_order=3, sympy_input="expression")
+    add(carrier="C", sizes=[1, 1], spectrum=RAT_SPECTRA[2], terms=[[1, 0], [0, 1], [2, 1]], max_order=3, sympy_input="expression")
+    add(carrier="C", sizes=[2, 1], spectrum="sym", terms=[[1], [3]], max_order=3, sympy_input="expression")
     # dict mask on a NON-first block with a non-transitive kept pattern (only element (0,2) of a 3x3 block is eliminated)
     add(carrier="C", sizes=[1, 3], spectrum=RAT_SPECTRA[4], terms=[[1]], max_order=3, fd={"1": [[0, 0, 1], [0, 0, 0], [1, 0, 0]]})
     add(carrier="C", sizes=[1, 1, 3], spectrum=RAT_SPECTRA[5], terms=[[1]], max_order=3, fd={"2": [[0, 0, 1], [0, 0, 0], [1, 0, 0]]})
